@@ -118,8 +118,16 @@ def classPreds (ca prevCa : Json) (rcnS : String) (rc : Json) (cls : List (Nat Ã
       -- recorded finding: activation of a new key renews every ROA, covered by the new certificate or not
       if activated && missing.isEmpty && !extra.isEmpty && extra.all (fun p => !(res.coversPfx p))
       then ["PayloadsExact/uncovered-after-activation"] else ["PayloadsExact"]
-    let p2 := if sortBy defLt (aspas.map (Â·.2.defn)) == wantA then [] else ["AspasExact"]
-    let p3 := if sortBy rkLt (keys routers) == wantK then [] else ["BgpsecExact"]
+    let haveA := aspas.map (Â·.2.defn)
+    let p2 := if sortBy defLt haveA == wantA then [] else
+      if activated && wantA.all (fun d => haveA.contains d) &&
+          (haveA.filter fun d => !(wantA.contains d)).all (fun d => !(res.hasAsn d.customer))
+      then ["AspasExact/uncovered-after-activation"] else ["AspasExact"]
+    let haveK := keys routers
+    let p3 := if sortBy rkLt haveK == wantK then [] else
+      if activated && wantK.all (fun k => haveK.contains k) &&
+          (haveK.filter fun k => !(wantK.contains k)).all (fun k => !(res.hasAsn k.asn))
+      then ["BgpsecExact/uncovered-after-activation"] else ["BgpsecExact"]
     -- what the class believes it issued = what the current key publishes
     let issued : List (Nat Ã— Nat) := (jfields (jpath rc ["certificates", "issued"])).map fun (_, v) =>
       (enc (jstr (jget v "name")), jtok (jget v "serial"))
@@ -292,6 +300,11 @@ def rpPreds (obs : Json) (objs : List (String Ã— List (Nat Ã— ClassO))) (synced 
   let lagging := laggingCas obs
   let underLagging (uri : String) : Bool :=
     lagging.any fun h => (uri.splitOn s!"/repo/{h}/").length > 1
+  -- manifest and CRL of the old key of a class in the `old` phase of a roll
+  let retiredFiles : List String := objs.flatMap fun (_, cls) => cls.flatMap fun (_, c) =>
+    match c.kind, c.other with
+    | "old", some os => [dec os.base ++ dec os.mftName, dec os.base ++ dec os.crlName]
+    | _, _ => []
   let probs := (jarr (jget rp "problems")).filter fun p =>
     jstr (jget p "kind") != "unlisted-subdir" && !(underLagging (jstr (jget p "uri")))
   let (vr, asp, rk) := expectVrps obs objs
@@ -314,6 +327,8 @@ def rpPreds (obs : Json) (objs : List (String Ã— List (Nat Ã— ClassO))) (synced 
     then "RpTreeValid/no-manifest-after-ignored-revocation/mapping-to-missing-class"
     else if kind == "no-manifest" && ignoredRevokes.any (fun k => (uri.splitOn s!"/{k}.").length > 1)
     then "RpTreeValid/no-manifest-after-ignored-revocation"
+    else if kind == "unlisted" && retiredFiles.contains uri
+    then "RpTreeValid/unlisted-retired-key"
     else s!"RpTreeValid/{kind}") ++
   (if ((jarr (jget rp "missing")).filter fun u => !(underLagging (jstr u))).isEmpty then [] else ["RpTreeValid/missing"]) ++
   (if !lagging.isEmpty then [] else
